@@ -3,7 +3,9 @@
    State of the code modelled: after the fix commits listed in known_findings.d/C12.json
    (imports in else/except/finally collected; relative level taken from parser.Node.Level;
    from-imports resolved per imported name; resolution cache keyed by importing directory;
-   "import a, b as c" keeps a).
+   "import a, b as c" keeps a; a package m/ shadows a file m.py next to it (21fe01e); a project
+   directory without __init__.py resolves as a namespace package before the third-party
+   classification (8ba1334)).
 
    File system: the project root is the directory all module paths are relative to; the file of
    module m is <m_path>.py, or <m_path>/__init__.py for a package.  Directories are paths below
@@ -22,6 +24,10 @@ Definition py_file_exists (pr : project) (q : path) : bool :=
   existsb (fun m => negb (m_is_pkg m) && path_eqb (m_path m) q) pr.
 Definition init_file_exists (pr : project) (q : path) : bool :=
   existsb (fun m => m_is_pkg m && path_eqb (m_path m) q) pr.
+
+(* dirExists(<q>) — module_analyzer.go: the directories of the file system are those module files lie in *)
+Definition dir_exists (pr : project) (q : path) : bool :=
+  existsb (fun m => strict_prefixb q (m_path m) || (m_is_pkg m && path_eqb (m_path m) q)) pr.
 
 (* filepath.Dir(filePath) of a module's file, relative to the root *)
 Definition dir_of (m : pymodule) : path := if m_is_pkg m then m_path m else removelast (m_path m).
@@ -95,12 +101,14 @@ Fixpoint first_some {A B} (f : A -> option B) (l : list A) : option B :=
   | a :: l' => match f a with Some b => Some b | None => first_some f l' end
   end.
 
-(* resolveAbsoluteImport (module_analyzer.go:373-417): python path = [root], package before
-   module; then stdlib (not included) / third party (included, named as written) *)
+(* resolveAbsoluteImport (module_analyzer.go): python path = [root], package before module; then
+   stdlib (not included); then a directory of that name = namespace package (PEP 420), named as
+   written; then third party (included, named as written) *)
 Definition resolveAbsoluteImport (pr : project) (p : path) : option path :=
   if init_file_exists pr p then Some p
   else if py_file_exists pr p then Some p
   else if isStandardLibrary p then (if include_stdlib then Some p else None)
+  else if dir_exists pr p then Some p
   else if include_third_party then Some p else None.
 
 (* resolveAbsoluteImportWithProject (module_analyzer.go:419-470): current directory, project
@@ -234,8 +242,14 @@ Definition analyze_import (pr : project) (m : pymodule) (g : graph) (ii : import
                         else AddDependency g (m_path m) r)
             (resolved_modules pr g m ii) g.
 
+(* DependencyGraph.AddModule (dependency_graph.go): m.py and m/__init__.py have one module name and one node; the
+   node describes the package.  analyzeModuleDependencies returns early for a file that is not its node's file
+   (module.FilePath != filePath): the file m.py next to a package m/.  (A file system holds at most one m.py and one
+   m/__init__.py.) *)
+Definition shadowed (pr : project) (m : pymodule) : bool := negb (m_is_pkg m) && init_file_exists pr (m_path m).
+
 Definition analyzeModuleDependencies (pr : project) (g : graph) (m : pymodule) : graph :=
-  fold_left (analyze_import pr m) (collectModuleImports m) g.
+  if shadowed pr m then g else fold_left (analyze_import pr m) (collectModuleImports m) g.
 
 (* AnalyzeFiles (module_analyzer.go:130-165): all modules first, then every file in the order given *)
 Definition AnalyzeFiles (pr : project) (order : list pymodule) : graph :=
